@@ -13,9 +13,12 @@
 //   dump                                         small canonical tree of the open session
 //   snap / cmp                                   remember / compare the FULL canonical tree (every getter of every entity)
 //   sha0 / sha?                                  remember / compare the SHA-256 of the bytes of the case file
-//   mut <name> / nomut <name> / mutrw <name>     one mutator of the public API on the rich block "r" of the open
-//                                                session / a call that must not write / the same mutator on a
-//                                                read-write scratch copy (shows the call itself is well formed)
+//   romut <name> <comp> <force>                  a whole read-only session (open, ONE mutator of the public API on the
+//                                                rich block "r", close) in a child process with a CPU-time limit ->
+//                                                <name> ERR|OK|HANG|CRASH sha-same|sha-DIFF
+//   rwmut <name>                                 the same mutator in a read-write session on a scratch copy (shows
+//                                                that the call itself is well formed)  -> <name> OK
+//   nomut <name> <ro|rw>                         a mutating-looking call that has nothing to write in that state
 //   battery                                      read everything: data, sections, tagged data, validator
 //   flush | close                                -> 1 attrs=0 / objs=0
 //   hold <kind> <n> | drop <kind> <n>            acquire / release live handles on the rich block "r"
@@ -34,6 +37,7 @@
 #include <sys/types.h>
 #include <sys/wait.h>
 #include <sys/stat.h>
+#include <sys/resource.h>
 #include <map>
 #include <set>
 #include <memory>
